@@ -94,3 +94,17 @@ package controlcommands
 //@   ensures old(len(responses)) == 0 ==> r == nil
 //@   ensures old(len(responses)) == 1 && r != nil ==> old(exists k MesosCommandTarget :: (k in responses) && r == responses[k])
 //@   ensures old(len(responses)) > 1 ==> r is *MesosCommandMultiResponse && r.(*MesosCommandMultiResponse).responses == responses
+
+// C12: the per-target command is the original restricted to one of its targets: same name, id, environment and response
+// timeout (the id is what matches a response to its call; the timeout is what bounds the wait), that target alone, and
+// that target's own arguments; a receiver that is not a target of the command gives nothing.
+//@ func (m *MesosCommandBase) MakeSingleTarget(receiver MesosCommandTarget) (cmd MesosCommand)
+//@   property C12
+//@   modifies nothing
+//@   loop 1 invariant #i >= -1 && #i < len(m.TargetList) && forall j int :: 0 <= j && j <= #i ==> m.TargetList[j] != receiver
+//@   ensures m == nil ==> cmd == nil
+//@   ensures m != nil && (forall j int :: 0 <= j && j < len(m.TargetList) ==> m.TargetList[j] != receiver) ==> cmd == nil
+//@   ensures m != nil && cmd != nil ==> cmd is *MesosCommandBase && fresh(cmd.(*MesosCommandBase))
+//@   ensures m != nil && cmd != nil ==> cmd.(*MesosCommandBase).Name == m.Name && cmd.(*MesosCommandBase).Id == m.Id && cmd.(*MesosCommandBase).EnvironmentId == m.EnvironmentId && cmd.(*MesosCommandBase).ResponseTimeout == m.ResponseTimeout
+//@   ensures m != nil && cmd != nil ==> len(cmd.(*MesosCommandBase).TargetList) == 1 && cmd.(*MesosCommandBase).TargetList[0] == receiver
+//@   ensures m != nil && cmd != nil && (receiver in m.argMap) ==> cmd.(*MesosCommandBase).Arguments == m.argMap[receiver]
